@@ -56,41 +56,66 @@ def from_u16(u):
     return b"".join(bytes((x & 255, x >> 8)) for x in u).decode("utf-16-le")
 
 
-def positions(u, line, char):
+def line_spans(u, crlf):
+    """[(start, end)] of the lines of u (end excludes the terminator); LF only, or LF / CRLF / CR when crlf"""
+    spans, start, i = [], 0, 0
+    while i < len(u):
+        if u[i] == 10:
+            spans.append((start, i)); start = i + 1
+        elif crlf and u[i] == 13:
+            spans.append((start, i))
+            if i + 1 < len(u) and u[i + 1] == 10:
+                i += 1
+            start = i + 1
+        i += 1
+    spans.append((start, len(u)))
+    return spans
+
+
+def positions(u, line, char, crlf=False):
     if line < 0:
         return [0]
-    start = 0
-    for _ in range(line):
-        try:
-            start = u.index(10, start) + 1
-        except ValueError:
-            return [len(u)]
-    try:
-        end = u.index(10, start)
-    except ValueError:
-        end = len(u)
+    spans = line_spans(u, crlf)
+    if line >= len(spans):
+        return [len(u)]
+    start, end = spans[line]
     idx = start + min(max(char, 0), end - start)
     if start < idx < end and 0xDC00 <= u[idx] < 0xE000 and 0xD800 <= u[idx - 1] < 0xDC00:
         return [idx - 1, idx + 1]
     return [idx]
 
 
-def oracle_apply(doc, rng, text):
-    """acceptable results of replacing rng in doc by text (first = the reading the Coq specification fixes)"""
+def oracle_apply(doc, rng, text, crlf=False):
+    """acceptable results of replacing rng in doc by text (first = the reading the Coq specification fixes).
+    crlf=False: LF is the only line terminator (what the mirror implements and the specification states);
+    crlf=True: LF, CRLF and CR terminate lines (LSP 3.17 text documents)."""
     u, t = u16(doc), u16(text)
     res = []
     def add(s, e):
         r = from_u16(u[:s] + t + u[e:])
         if r not in res:
             res.append(r)
-    for s in positions(u, rng[0], rng[1]):
-        for e in positions(u, rng[2], rng[3]):
+    for s in positions(u, rng[0], rng[1], crlf):
+        for e in positions(u, rng[2], rng[3], crlf):
             if e < s:
                 add(s, s)
                 add(e, s)
             else:
                 add(s, e)
     return res
+
+
+def apply_all_readings(wants, r, text, crlf=False):
+    """one incremental change applied to every acceptable previous content (bytes); a previous content that is not
+    well-formed UTF-8 (a corrupted mirror, reported when it appeared) cannot be judged further: []"""
+    nw = []
+    for w in wants or []:
+        if not valid_utf8(w):
+            return []
+        for x in oracle_apply(w.decode(), r, text, crlf):
+            if x.encode() not in nw:
+                nw.append(x.encode())
+    return nw
 
 
 def valid_utf8(b):
@@ -199,8 +224,10 @@ def frame(body, header=None):
     return header + body
 
 
-def parse_out(b):
+def parse_out(b, exact_numbers=False):
     """strict parse of the server's output: a concatenation of 'Content-Length: N\\r\\n\\r\\n' + N bytes of JSON"""
+    from decimal import Decimal
+    kw = dict(parse_int=Decimal, parse_float=Decimal) if exact_numbers else {}
     msgs, i = [], 0
     while i < len(b):
         m = re.match(rb"Content-Length: (0|[1-9][0-9]*)\r\n\r\n", b[i:])
@@ -211,7 +238,7 @@ def parse_out(b):
         if j + n > len(b):
             return msgs, "announced length %d exceeds the bytes written (%d left)" % (n, len(b) - j)
         try:
-            msgs.append((n, json.loads(b[j:j + n].decode("utf-8"))))
+            msgs.append((n, json.loads(b[j:j + n].decode("utf-8"), **kw)))
         except (ValueError, UnicodeDecodeError) as e:
             return msgs, "body of announced length %d is not one JSON value: %s" % (n, e)
         i = j + n
@@ -691,6 +718,15 @@ def run(tier):
                               "explanation": "conversation with a real Server: %s" % pr["what"]}, "conversation_%s_%d" % (pr["class"], nviol))
         if term:
             serve_terms.append(term); serve_src.append((c, uris, opt, res))
+    # id fidelity: numbers of any magnitude, fractions, strings
+    iprobs, n = id_probe()
+    evals += n
+    count("id_probes", n)
+    for pr in iprobs:
+        if matches_known(pr, known_sigs):
+            continue
+        rp.violation({"kind": "oracle", "family": "stream", "frames": pr.get("frames", []), "uris": [], "problem": pr, "conv": [],
+                      "explanation": "the response does not carry the request's id: %s" % pr["what"]}, "id_fidelity_%d" % len(rp.violations))
     tick("conversations run and judged")
     # streams with broken framing between well-formed messages
     bconvs = []
@@ -801,6 +837,7 @@ def gen_histories(rng, n):
 def check_history(ops, steps):
     """python oracle, step by step relative to the implementation's own previous content"""
     cur = {}
+    cr_note = None
     for i, o in enumerate(ops):
         if i >= len(steps):
             return {"class": "died", "what": "history stopped at step %d" % i, "step": i}
@@ -822,21 +859,21 @@ def check_history(ops, steps):
                     return {"class": "mirror", "what": "change of a document that is not open created it", "step": i}
                 continue
             want = [cur[u][1]]
+            want_cr = [cur[u][1]]
             wv = o["version"]
             for ch in o["changes"]:
                 t = bytes.fromhex(ch["hex"])
                 if ch["range"] is None:
-                    want = [t]
+                    want, want_cr = [t], [t]
                 elif all(valid_utf8(w) for w in want) and valid_utf8(t):
-                    nw = []
-                    for w in want:
-                        for x in oracle_apply(w.decode(), ch["range"], t.decode()):
-                            if x.encode() not in nw:
-                                nw.append(x.encode())
-                    want = nw
+                    want = apply_all_readings(want, ch["range"], t.decode())
+                    want_cr = apply_all_readings(want_cr, ch["range"], t.decode(), crlf=True) if want_cr is not None else None
                 else:
                     want = None   # ill-formed UTF-8: the protocol rule does not apply; only survival and the model are checked
                     break
+            if want is not None and st["present"] and bytes.fromhex(st["hex"]) in want and want_cr is not None and bytes.fromhex(st["hex"]) not in want_cr:
+                cr_note = {"class": "mirror_cr", "what": "step %d: content %r; with CR / CRLF as line terminators the protocol rule gives %r" % (
+                    i, bytes.fromhex(st["hex"]).decode("utf-8", "replace"), [w.decode("utf-8", "replace") for w in want_cr]), "step": i}
         if not st["present"]:
             return {"class": "mirror", "what": "document absent after %s" % o["op"], "step": i}
         got = bytes.fromhex(st["hex"])
@@ -846,7 +883,7 @@ def check_history(ops, steps):
         if st["version"] != wv:
             return {"class": "version", "what": "step %d: version %d, expected %d" % (i, st["version"], wv), "step": i}
         cur[u] = (st["version"], got)
-    return None
+    return cr_note
 
 
 def uri_term(u):
@@ -1033,17 +1070,19 @@ def check_conversation(c, uris, opt, res, stats, lens_seen):
                     probs.append({"class": "mirror", "what": "%s: change of a document that is not open created a mirror" % where})
             else:
                 want = [cur[u][1]]
+                want_cr = [cur[u][1]]
                 for r, text, _ in m["changes"]:
                     stats["edits"] += 1
                     if r is None:
-                        want = [text.encode()]
+                        want, want_cr = [text.encode()], [text.encode()]
                     else:
-                        nw = []
-                        for w in want:
-                            for x in oracle_apply(w.decode(), r, text):
-                                if x.encode() not in nw:
-                                    nw.append(x.encode())
-                        want = nw
+                        want = apply_all_readings(want, r, text)
+                        want_cr = apply_all_readings(want_cr, r, text, crlf=True)
+                if not want:
+                    want = None
+                if got is not None and want and want_cr and got[1] in want and got[1] not in want_cr:
+                    probs.append({"class": "mirror_cr", "what": "%s: mirror is %r; with CR / CRLF as line terminators the protocol rule gives %r (before: %r)" % (
+                        where, got[1].decode("utf-8", "replace"), [w.decode("utf-8", "replace") for w in want_cr], cur[u][1].decode("utf-8", "replace"))})
             if want is not None:
                 if got is None:
                     probs.append({"class": "mirror", "what": "%s: document not mirrored" % where})
@@ -1179,6 +1218,34 @@ def check_stream(c, uris, frames, res, lens_seen):
 
 
 # --------------------------------------------------------------------------------------------------
+# id fidelity probe: the response must carry the request's id (numbers compared by exact value)
+
+RAW_IDS = ['9007199254740993', '-9007199254740993', '18446744073709551616', '1e2', '1.5', '0.1', '-0', '4294967296', '-1',
+           '123456789012345678901234567890', '"9007199254740993"', '"1e2"', '9007199254740992', '1.0']
+
+
+def id_probe():
+    from decimal import Decimal
+    frames = [frame('{"jsonrpc":"2.0","id":%s,"method":"textDocument/documentSymbol","params":{"textDocument":{"uri":"x"}}}' % r) for r in RAW_IDS]
+    p = common.vh(["lspserve"], input=json.dumps({"frames": [hx(f) for f in frames], "uris": []}) + "\n")
+    r = json.loads(p.stdout.splitlines()[0])
+    probs = []
+    if r.get("panic") or not r.get("returned"):
+        probs.append({"class": "died", "what": "id probe: server died: %s" % r.get("panic")})
+    for i, raw in enumerate(RAW_IDS):
+        sn = [x for x in r["snapshots"] if x["delivered"] == i + 1]
+        msgs, err = parse_out(b"".join(bytes.fromhex(x["out"]) for x in sn), exact_numbers=True)
+        want = json.loads(raw, parse_int=Decimal, parse_float=Decimal)
+        got = [j.get("id") for n, j in msgs if isinstance(j, dict) and "method" not in j]
+        same = len(got) == 1 and type(got[0]) == type(want) and got[0] == want
+        if err or not same:
+            idv = int(want) if isinstance(want, Decimal) and want == want.to_integral_value() else None
+            probs.append({"class": "response", "id": idv, "what": "request id %s answered with id(s) %s" % (raw, [str(g) for g in got]),
+                          "frames": [hx(frames[i])]})
+    return probs, len(RAW_IDS)
+
+
+# --------------------------------------------------------------------------------------------------
 # known findings, witnesses, replay
 
 def matches_known(prob, known_sigs):
@@ -1187,8 +1254,10 @@ def matches_known(prob, known_sigs):
         if sig.get("kind") == "response_id" and prob.get("class") == "response":
             idv = prob.get("id")
             if isinstance(idv, int) and abs(idv) > 2 ** 53:
-                return True
-    return False
+                return k
+        if sig.get("kind") == "cr_line_terminator" and prob.get("class") == "mirror_cr":
+            return k
+    return None
 
 
 def witness_fails(w):
@@ -1200,8 +1269,11 @@ def witness_fails(w):
     if kind == "edit":
         p = common.vh(["lspedit"], input=json.dumps({"doc": w["doc"], "range": w["range"], "text": w["text"]}) + "\n")
         r = json.loads(p.stdout.splitlines()[0])
-        ok = (not r.get("panic")) and r["got"] in (r.get("want") or [])
-        return (not ok), ("panic: " + r["panic"]) if r.get("panic") else "got %s want %s" % (r["got"], r.get("want"))
+        want = r.get("want") or []
+        if w.get("crlf"):
+            want = [x.encode().hex() for x in oracle_apply(bytes.fromhex(w["doc"]).decode(), w["range"], bytes.fromhex(w["text"]).decode(), crlf=True)]
+        ok = (not r.get("panic")) and r["got"] in want
+        return (not ok), ("panic: " + r["panic"]) if r.get("panic") else "got %s want %s" % (r["got"], want)
     if kind == "frames":
         p = common.vh(["lspframes"], input=json.dumps({"stream": w["stream"]}) + "\n")
         r = json.loads(p.stdout.splitlines()[0])
